@@ -43,4 +43,9 @@ def strip_ws(t):
     txt = t["text"]
     if txt is not None and not txt.strip() and t["kids"]:
         txt = None
-    return {"tag": t["tag"], "attrs": sorted(t["attrs"]), "text": txt, "kids": [strip_ws(k) for k in t["kids"]]}
+    tag = t["tag"].split(":", 1)[1] if (":" in t["tag"] and not t["tag"].startswith("{")) else t["tag"]
+    if tag.startswith("{"):
+        tag = tag.split("}", 1)[1]
+    # namespace declarations and prefixes are layout: compare local names and ordinary attributes
+    attrs = sorted(a for a in t["attrs"] if not a[0].startswith("xmlns"))
+    return {"tag": tag, "attrs": attrs, "text": txt, "kids": [strip_ws(k) for k in t["kids"]]}
